@@ -598,6 +598,11 @@ func (r *Run) callSSA(caller *frame, callpos token.Pos, fn *ssa.Function, args [
 		r.funcs[fn]++
 	}
 
+	r.depth++
+	if r.depth > 4000 {
+		r.abort("unwind", fmt.Sprintf("call depth %d exceeded in %s (runaway recursion?)", r.depth, fn))
+	}
+	defer func() { r.depth-- }()
 	fr.env = make(map[ssa.Value]value)
 	fr.block = fn.Blocks[0]
 	fr.locals = make([]value, len(fn.Locals))
